@@ -266,6 +266,7 @@ package impl
 // input item has a representative
 //@ func Distinct(ctx, input, args) (res, err)
 //@   requires validColl(input)
+//@   defines len(args) == 0 ==> res == distinctS(input)
 //@   ensures len(args) != 0 ==> is(err, ErrWrongArity)
 //@   ensures len(args) == 0 ==> err == nil
 //@   ensures err == nil ==> len(res) <= len(input)
@@ -284,6 +285,8 @@ package impl
 //@   requires validColl(input)
 //@   ensures len(args) != 0 ==> is(err, ErrWrongArity)
 //@   ensures len(args) == 0 ==> err == nil && (collTV(res) == TV_T || collTV(res) == TV_F)
+// isDistinct() is true exactly when distinct() drops nothing
+//@   ensures len(args) == 0 ==> (collTV(res) == TV_T) == (len(distinctS(input)) == len(input))
 //@   assigns nothing
 //
 // exclude(d): precisely the items of the input equal to no item of d, order and duplicates
@@ -341,12 +344,16 @@ package impl
 //@   requires ctx != nil && validColl(input)
 //@   requires forall k int :: 0 <= k && k < len(args) ==> args[k] != nil
 //@   ensures len(input) == 0 && len(args) == 0 ==> err == nil && len(res) == 0
+// C14: the whole string is mapped by the Unicode case mapping (strings.ToUpper, named)
+//@   ensures len(input) == 1 && len(args) == 0 && fromOk(input[0]) && isStringV(fromS(input[0])) ==> err == nil && len(res) == 1 && res[0] == box(system.String(upperS(unbox(fromS(input[0]), system.String))))
 //@   assigns nothing
 //
 //@ func Lower(ctx, input, args) (res, err)
 //@   requires ctx != nil && validColl(input)
 //@   requires forall k int :: 0 <= k && k < len(args) ==> args[k] != nil
 //@   ensures len(input) == 0 && len(args) == 0 ==> err == nil && len(res) == 0
+// C14: the whole string is mapped by the Unicode case mapping (strings.ToLower, named)
+//@   ensures len(input) == 1 && len(args) == 0 && fromOk(input[0]) && isStringV(fromS(input[0])) ==> err == nil && len(res) == 1 && res[0] == box(system.String(lowerS(unbox(fromS(input[0]), system.String))))
 //@   assigns nothing
 //
 //@ func Exp(ctx, input, args) (res, err)
@@ -626,6 +633,12 @@ package impl
 //@   ensures err == nil && len(input) == 1 && !fromOk(input[0]) ==> len(res) <= 1 && (len(res) == 1 ==> isKind(3, res[0]))
 //@   ensures len(input) == 1 && len(args) == 0 && fromOk(input[0]) && isKind(3, fromS(input[0])) ==> err == nil && len(res) == 1 && res[0] == fromS(input[0])
 //@   ensures err == nil && !(len(input) == 1 && !fromOk(input[0])) ==> len(res) <= 1 && (len(res) == 1 ==> isKind(3, res[0]))
+// C13: a Date, DateTime or Time converts to exactly its canonical text (the value formatted
+// with its own layout), which is what toDate/toDateTime/toTime parse back
+//@   ensures len(input) == 1 && len(args) == 0 && fromOk(input[0]) && istype(fromS(input[0]), system.DateTime) ==> len(res) == 1 && res[0] == box(system.String(fmtS(unbox(fromS(input[0]), system.DateTime).dateTime, string(unbox(fromS(input[0]), system.DateTime).l))))
+//@   ensures len(input) == 1 && len(args) == 0 && fromOk(input[0]) && istype(fromS(input[0]), system.Date) ==> len(res) == 1 && res[0] == box(system.String(fmtS(unbox(fromS(input[0]), system.Date).date, string(unbox(fromS(input[0]), system.Date).l))))
+//@   ensures len(input) == 1 && len(args) == 0 && fromOk(input[0]) && istype(fromS(input[0]), system.Time) ==> len(res) == 1 && res[0] == box(system.String(fmtS(unbox(fromS(input[0]), system.Time).time, string(unbox(fromS(input[0]), system.Time).l))))
+//@   ensures len(input) == 1 && len(args) == 0 && fromOk(input[0]) && isInteger(fromS(input[0])) ==> len(res) == 1 && res[0] == box(system.String(int_to_str(intOf(fromS(input[0])))))
 //@   assigns nothing
 //
 //@ func ConvertsToString(ctx, input, args) (res, err)
